@@ -117,6 +117,9 @@ def run_models(chk: Check, pid: str):
 def main_for(chk: Check, pid: str, models: bool = True):
     if models:
         run_models(chk, pid)
+        if pid in ("C01", "C02", "C03", "C05", "C10", "C15"):
+            from . import popgen
+            popgen.run(chk, pid)        # (G) behaviours of PopMachine stepped through the real loop
     v = corpus.corpus(chk.tier, chk.seed)
     records = v["records"]
     byid = {r["id"]: r for r in records}
